@@ -197,12 +197,27 @@ func (x *Exec) FairSuffix(maxCycles int) SuffixResult {
 			if !n.FullHistory() {
 				continue
 			}
+			// (an event re-read from a database carries no round-received of its own: the rounds' lists decide)
+			var received map[string]bool
 			for h := range loaded {
 				e, err := n.Store.GetEvent(h)
 				if err != nil {
 					return false, fmt.Sprintf("node %d does not hold loaded event %s", n.Idx, h[:10])
 				}
-				if !e.VInfo().HasRoundReceived {
+				if e.VInfo().HasRoundReceived {
+					continue
+				}
+				if received == nil {
+					received = map[string]bool{}
+					for r := 0; r <= n.Store.LastRound(); r++ {
+						if ri, err := n.Store.GetRound(r); err == nil {
+							for _, x := range ri.ReceivedEvents {
+								received[x] = true
+							}
+						}
+					}
+				}
+				if !received[h] {
 					return false, fmt.Sprintf("loaded event %s not committed at node %d", h[:10], n.Idx)
 				}
 			}
